@@ -30,7 +30,7 @@ def type_strings(thorough):
     return out
 
 
-def descriptor(ndim, pos, vel, types):
+def descriptor(ndim, pos, vel, types, scaled_names=False):
     d = []
     comps = "xyz"[:ndim]
     if pos == "full":
@@ -46,6 +46,10 @@ def descriptor(ndim, pos, vel, types):
     names = {"d": ["mass", "birth_time", "metallicity", "pot", "aux1", "aux2"],
              "i": ["identity", "levelp", "ipar", "jpar", "kpar", "lpar"],
              "b": ["family", "tag", "flag_a", "flag_b", "flag_c", "flag_d"]}
+    if scaled_names:
+        # integer and byte records under names whose unit has a scale (a time step counter named 'time', a size class named 'dx'):
+        # whatever the on-disk type, the stored number is in the unit of its name
+        names = dict(names, i=["time"] + names["i"], b=["dx"] + names["b"])
     used = {"d": 0, "i": 0, "b": 0}
     for t in types:
         d.append((names[t][used[t]], t))
@@ -75,6 +79,9 @@ def part_cases(thorough):
                             continue
                         yield {"ndim": ndim, "ncpu": ncpu, "counts": counts, "types": types, "pos": pos, "vel": vel,
                                "localseed": ls, "nstar_bytes": nsb, "units": ui}
+                        if (pos, vel, ls, nsb) == ("full", "full", 4, 4) and ("i" in types or "b" in types) and len(types) <= 3:
+                            yield {"ndim": ndim, "ncpu": ncpu, "counts": counts, "types": types, "pos": pos, "vel": vel,
+                                   "localseed": ls, "nstar_bytes": nsb, "units": 1, "scaled_names": True}
                         # the table restricted to some of its variables: still complete in rows
                         if len(desc) >= 3 and len(types) in (1, 2) and (pos, vel, ls, nsb) == ("full", "full", 4, 4) and sum(counts) > 0:
                             for sel in ("all-but-first", "first-off", "last-two"):
@@ -101,7 +108,7 @@ def run_part(c, sortby=None):
     tree = M1.Tree(ndim, 1, [])
     ud, ul, ut, box = UNITS[c["units"]]
     out = M1.Output(tree, ncpu=c["ncpu"], unit_d=ud, unit_l=ul, unit_t=ut, boxlen=box, hydro="two")
-    desc = descriptor(ndim, c["pos"], c["vel"], c["types"])
+    desc = descriptor(ndim, c["pos"], c["vel"], c["types"], c.get("scaled_names", False))
     out.part = M1.make_part(desc, c["counts"], localseed=c["localseed"], nstar_bytes=c["nstar_bytes"])
     if sortby:
         # introduce ties in the sort key
